@@ -91,7 +91,7 @@ var controlTable = []control{
 	{"C08", "flag-never-set", "control/encode.go", "e.alreadyWritten = true\n", "", "C08-SEP"},
 	// C09
 	{"C09", "uint-case-removed-from-decoder", "control/decode.go", "case reflect.Uint:\n\t\tif value == \"\" {\n\t\t\tfield.SetUint(0)\n\t\t\treturn nil\n\t\t}\n\t\tvalue, err := strconv.ParseUint(value, 10, 0)\n\t\tif err != nil {\n\t\t\treturn err\n\t\t}\n\t\tfield.SetUint(value)\n\t\treturn nil\n", "", "C09-KINDS"},
-	{"C09", "nil-guard-removed", "control/encode.go", "if field.IsNil() {\n\t\t\treturn \"\", nil\n\t\t}\n", "", "C09-NIL"},
+	{"C09", "nil-guard-removed", "control/encode.go", "if field.IsNil() {\n\t\t\treturn \"\", nil\n\t\t}\n", "", "C09-NOPANIC"},
 	{"C09", "encoder-writes-true", "control/encode.go", "return \"yes\", nil", "return \"true\", nil", "C09-KINDS"},
 	{"C09", "decoder-ignores-required", "control/decode.go", "if fieldType.Tag.Get(\"required\") == \"true\" {\n\t\t\t\treturn fmt.Errorf(", "if false {\n\t\t\t\treturn fmt.Errorf(", "C09-"},
 	{"C09", "update-receiver-and-argument-swapped", "control/encode.go", "para := foundParagraph.Update(Paragraph{Order: order, Values: values})", "np := Paragraph{Order: order, Values: values}\n\tpara := np.Update(foundParagraph)", "C09-MERGE"},
